@@ -145,6 +145,7 @@ def _sock_shutdown(self, E, st, sock, args, kw):
 
 
 def _sock_settimeout(self, E, st, sock, args, kw):
+    st.event("sock.settimeout", sock, args[0] if args else NONE)
     return [Res(st, NONE)]
 
 
